@@ -530,7 +530,7 @@ pub struct SimChild {
 /// How long a blocked parent op waits (real time) for another parent thread to change the
 /// state before the run is declared hung. Only reached when neither the calling thread nor the
 /// child can make progress, i.e. never on the paths of a single-threaded parent that terminates.
-const OTHER_THREAD_GRACE: std::time::Duration = std::time::Duration::from_millis(400);
+const OTHER_THREAD_GRACE: std::time::Duration = std::time::Duration::from_millis(250);
 
 impl SimChild {
     fn lock(&self) -> std::sync::MutexGuard<'_, SimProc> {
